@@ -14,6 +14,7 @@ mod simchild;
 mod simsat;
 mod statics;
 mod streams;
+mod supervisor;
 
 use framework::{BatchCfg, Tier};
 
@@ -63,11 +64,30 @@ fn main() {
                 write_evidence: !args.iter().any(|a| a == "--no-evidence"),
                 max_reports: 3,
             };
+            if !supervisor::is_child() && std::env::var_os("VERIF_UNSUPERVISED").is_none() {
+                std::process::exit(supervisor::run_supervised(p.as_ref(), &args, seed, tier, workers));
+            }
             let code = framework::run_batch(p.as_ref(), &cfg);
             std::process::exit(code);
         }
+        "exec-run" => {
+            // one run of a batch, in its own process (used by the supervisor)
+            let id = args.get(2).cloned().unwrap_or_else(|| usage());
+            let p = props.iter().find(|p| p.id() == id).unwrap_or_else(|| usage());
+            let i: u64 = opt("--index").and_then(|s| s.parse().ok()).unwrap_or(0);
+            supervisor::Heartbeat::open().beat(0, i);
+            let (_c, r) = framework::run_one(p.as_ref(), seed, i, tier);
+            for v in &r.violations {
+                println!("violation: {} :: {}", v.key(), v.msg);
+            }
+            std::process::exit(if r.violations.is_empty() { 0 } else { 1 });
+        }
         "replay" => {
             let f = args.get(2).cloned().unwrap_or_else(|| usage());
+            if !supervisor::is_child() && std::env::var_os("VERIF_UNSUPERVISED").is_none() {
+                std::process::exit(supervisor::replay_supervised(&args, &f));
+            }
+            supervisor::Heartbeat::open().beat(0, 0);
             std::process::exit(framework::replay(&props, &f));
         }
         "digests" => {
